@@ -201,7 +201,13 @@ let judge_record line =
         let bigc = if bigi >= 0 then [{ ccoefs = List.init (bigi + 1) (fun j -> if j = bigi then z_of_int 1 else Z0); ccst = z_of_int (-1000000); ckd = GE }] else [] in
         (* a context that bounds the big parameter from above leaves nothing specified *)
         let ctx_only = List.filter (fun c -> ponly pb.is_par c.ccoefs) cons in
-        if bigi >= 0 && nonempty_cons (nat_of_int dim) (ctx_only @ nonneg @ bigc) <> Some true then None
+        (* ... and so does a context that lets the big parameter be big only together with
+           other parameters (it must admit M >= 10^6 with all other parameters <= 1000) *)
+        let small = List.concat (List.init dim (fun i ->
+            if flags.(i) && i <> bigi then
+              [{ ccoefs = List.init (i + 1) (fun j -> if j = i then z_of_int (-1) else Z0); ccst = z_of_int 1000; ckd = GE }]
+            else [])) in
+        if bigi >= 0 && nonempty_cons (nat_of_int dim) (ctx_only @ nonneg @ bigc @ small) <> Some true then None
         else nonempty_cons (nat_of_int dim) (cons @ nonneg @ bigc) end
       else None in
     let status_fail =
